@@ -130,7 +130,7 @@ theorem smoothDef_ev (L : Level) (i : Nat) (m : Mat) (tag : String) (r r' : LvVe
   simp [smoothDef, h]
 
 theorem peakLocal_ev (L : Level) (i : Nat) (v v' : LvVecs) : (peakLocal L i v).2 = (peakLocal L i v').2 := by
-  unfold peakLocal
+  unfold peakLocal peakTail
   cases L.peak <;> cases L.pre <;> cases L.post <;> simp [smoothDef]
 
 theorem coarseLocal_ev (L : Level) (i : Nat) (v v' : LvVecs) : (coarseLocal L i v).2 = (coarseLocal L i v').2 := by
@@ -227,7 +227,7 @@ theorem peakLocal_rel (hc : Closed ι cgc R) (L : Level) (i : Nat) (v : ι → L
     (h : Rel3 R v) : Rel3 R (fun k => (peakLocal L i (v k)).1) := by
   have h0 : Rel3 R (fun k => (({ v k with defe := defect L (v k).rhs (v k).sol }, [s!"D{i}"]) :
       LvVecs × List String).1) := ⟨h.rhs, h.sol, hc.defect L _ _ h.rhs h.sol⟩
-  unfold peakLocal
+  unfold peakLocal peakTail
   cases L.peak with
   | some m => exact smoothDef_rel hc L i m _ _ h0
   | none =>
